@@ -1506,6 +1506,20 @@ class Engine:
                 if op.startswith("Shl"):
                     return VInt(wrap(x * (1 << n), ty), ty)
                 return VInt(x / (1 << n), ty) if not INT_TYPES[ty][0] else VInt(z3.If(x >= 0, x / (1 << n), -((-x + (1 << n) - 1) / (1 << n))), ty)
+            # masks with a constant: exact arithmetic forms (cheaper than a round trip through bit-vectors)
+            cy = self.concretize(y) if not INT_TYPES[ty][0] else None
+            if op == "BitAnd" and cy is not None and cy >= 0 and (cy + 1) & cy == 0:
+                return VInt(x % (cy + 1), ty)                     # low mask 2^k - 1
+            if op == "BitAnd" and cy is not None and cy > 0 and cy & (cy - 1) == 0:
+                return VInt(((x / cy) % 2) * cy, ty)              # single bit
+            if op == "BitOr":
+                # (hi << k) | lo  with lo < 2^k and hi a multiple of 2^k (checked under the path condition) is hi + lo
+                for lo, hi in ((x, y), (y, x)):
+                    ls = z3.simplify(lo)
+                    if z3.is_mod(ls) and z3.is_int_value(ls.arg(1)):
+                        m_ = ls.arg(1).as_long()
+                        if m_ > 0 and m_ & (m_ - 1) == 0 and not self.feasible(z3.Or(hi % m_ != 0, hi < 0)):
+                            return VInt(hi + lo, ty)
             # bit operations through bit-vectors of the type's width
             bx, by = z3.Int2BV(wrap(x, "u128") if bits == 128 else x, bits), z3.Int2BV(y, bits)
             r = {"BitAnd": bx & by, "BitOr": bx | by, "BitXor": bx ^ by}[op]
